@@ -17,6 +17,8 @@ import TsRsVerif.Model.Comment
 import TsRsVerif.Model.TreeDerive
 import TsRsVerif.Lemmas.History
 import TsRsVerif.Lemmas.UnfoldCheck
+import TsRsVerif.Model.De
+import TsRsVerif.Lemmas.DeComplete2
 open Lean TsRs
 
 def gs (j : Json) (k : String) : Str :=
@@ -426,6 +428,25 @@ partial def loop (h : IO.FS.Stream) (out : IO.FS.Stream) (st : DState) : IO Unit
                 && Ts.beq (Ts.norm [] [] 60 b) (Ts.norm [] [] 60 (TsParse.bindParams ps pb))))]
           | _, _ => Json.mkObj [("in", Json.bool true), ("eq", Json.bool false), ("unparsed", Json.bool true)]
       out.putStrLn (Json.mkObj [("frag", Json.bool frag), ("sub", Json.num sub.length), ("rows", Json.arr rows.toArray)]).compress
+      loop h out st
+    else if op = "de_acc" then
+      -- the acceptance model of serde's Deserialize (Model/De.lean) on a batch of JSON texts for one type of one program
+      let env : Env := (ProgIO.arr j "items").map ProgIO.item
+      let cfg : Cfg := { ops := opsOf st.chars }
+      let t : RTy := match j.getObjVal? "ty" with
+        | .ok tj => ProgIO.rty tj
+        | .error _ => .prim "()"
+      let ranks := (gsl j "jsons").map fun txt =>
+        match Json.parse (String.ofList txt) with
+        | .ok v => Json.num (De.accTy cfg env 60 t (ProgIO.ofLean v))
+        | .error _ => Json.num 9
+      -- is the (reachable part of the) program inside the fragment of C02_members_are_accepted?
+      let infrag := deFragB cfg env && tyOk cfg.limit t
+      let wf := (gsl j "jsons").map fun txt =>
+        match Json.parse (String.ofList txt) with
+        | .ok v => Json.bool (wfJ (ProgIO.ofLean v))
+        | .error _ => Json.bool false
+      out.putStrLn (Json.mkObj [("ranks", Json.arr ranks.toArray), ("frag", Json.bool infrag), ("wf", Json.arr wf.toArray)]).compress
       loop h out st
     else if op = "inline_check" then
       -- C01_inline_sound / C14_checked_unfolding: the tree-level declarations of the program WITHOUT its `inline` marks against the
